@@ -52,7 +52,31 @@ theorem inv_onClaimed {g g' : GState} {out : Out} {op : Op} (h : Inv cfg g)
   · cases op
     all_goals simp only [] at hs
     all_goals first | (cases hs; done) | skip
-    all_goals trace_state
-    all_goals stop skip
+    case claim => cases hs; exact h
+    case allocate => (repeat' split at hs) <;> first | (cases hs; done) | (cases hs; exact h)
+    case allocLayout => (repeat' split at hs) <;> first | (cases hs; done) | (cases hs; exact h)
+    case reserve => (repeat' split at hs) <;> first | (cases hs; done) | (cases hs; exact h)
+    case grow => (repeat' split at hs) <;> first | (cases hs; done) | (cases hs; exact h)
+    case deallocate b via =>
+      split at hs
+      · cases hs
+      · rename_i blk hb
+        split at hs
+        · cases hs
+        · rename_i s' hd
+          have e := deallocate_claimed_eq rfl hd
+          subst e
+          cases hs
+          exact h.dropBlock b
+    case shrink b L via =>
+      split at hs
+      · cases hs
+      · rename_i u hu
+        have hL := validLayout_valid hu
+        split at hs
+        · cases hs
+        · rename_i blk hb
+          trace_state
+          stop skip
 
 end Arena.Hist
